@@ -14,7 +14,7 @@ import (
 	"wucheck/core"
 )
 
-var nullableUrlFields = map[string]bool{"Url:host": true, "Url:port": true, "Url:query": true, "Url:fragment": true}
+var nullableUrlFields = map[string]bool{"Url:host": true, "Url:port": true, "Url:query": true, "Url:fragment": true, "Url:searchParams": true}
 
 // nullableDeref recognises a dereference of a nullable Url field: returns the field element and the pointer value loaded.
 func nullableDeref(ptr ssa.Value) (string, ssa.Value, bool) {
@@ -58,6 +58,18 @@ func init() {
 							}
 						case *ssa.Store:
 							ptr = x.Addr
+						case *ssa.FieldAddr:
+							// a field of the object a nullable pointer refers to (the lazily created parameter list)
+							if el, _, ok := nullableDeref(x.X); ok && el == "Url:searchParams" {
+								ptr = x.X
+							}
+						case *ssa.Call:
+							// a method of the parameter list called on it: every one of them reads its receiver
+							if cl := x.Common().StaticCallee(); cl != nil && namedOf(recvType(cl)) == "SearchParams" && len(x.Common().Args) > 0 {
+								if el, _, ok := nullableDeref(x.Common().Args[0]); ok && el == "Url:searchParams" {
+									ptr = x.Common().Args[0]
+								}
+							}
 						}
 						if ptr == nil {
 							continue
@@ -65,6 +77,13 @@ func init() {
 						el, base, ok := nullableDeref(ptr)
 						if !ok {
 							continue
+						}
+						if el == "Url:searchParams" {
+							switch ins.(type) {
+							case *ssa.FieldAddr, *ssa.Call:
+							default:
+								continue // the pointer itself is loaded or stored, not what it refers to
+							}
 						}
 						fn := core.FuncName(f)
 						expr := "*" + strings.TrimPrefix(el, "Url:")
